@@ -4,7 +4,7 @@
                        _send_signal, send_signal/suspend/resume/terminate/kill, process_iter, pids, boot_time
    psutil/_pslinux.py  Process.create_time, nice_set, ionice_set, rlimit, cpu_affinity_set,
                        _get_eligible_cpus, ppid, wrap_exceptions, boot_time, pids
-   transcribed from the code as it is in /repo now (after 32d3689 and 5d0422d).
+   transcribed from the code as it is in /repo now (after 32d3689, 5d0422d, a4fac6f, 7214dea).
 
    The model sees the kernel only through [kview] -- what /proc and the system calls
    answer.  It never sees incarnation numbers: those exist only in Proc/Spec.v.
@@ -19,8 +19,7 @@ Record kview := {
                                              false = _get_ident() raised AccessDenied / ZombieProcess,
                                              which _init swallows leaving _ident = (pid, None) *)
   kv_pids  : list Z;                      (* numeric entries of os.listdir(/proc), any order *)
-  kv_btime : Z;                           (* btime line of /proc/stat *)
-  kv_elig  : Z -> list Z                  (* CPUs of Cpus_allowed_list in /proc/<pid>/status *)
+  kv_btime : Z                            (* btime line of /proc/stat *)
 }.
 
 (* ---------------------------------------------------------------- Process object state *)
@@ -106,6 +105,8 @@ Inductive res :=
 Definition SIGKILL := 9. Definition SIGTERM := 15. Definition SIGCONT := 18. Definition SIGSTOP := 19.
 Definition PID_MAX := 2147483648.   (* _Py_PARSE_PID is a C int *)
 Definition CLOCK_TICKS := 100.
+(* cpu_affinity([]) on Linux: tuple(range(1024)), every CPU a cpu_set_t can hold *)
+Definition ALL_CPUS : list Z := map Z.of_nat (seq 0 1024).
 
 (* sorted(set(l)) *)
 Fixpoint insert_uniq (a : Z) (l : list Z) : list Z :=
@@ -206,12 +207,8 @@ Definition setter_body (x : pobj) (s : setter) : pobj * outcome res * list sysc 
          | _ => (x, Exc ValueError, [])
          end
   | Affinity cpus =>
-    match cpus with
-    | [] => (* _get_eligible_cpus() reads /proc/<pid>/status *)
-      if kexists (opid x) then wrapped_sys x (SAffinity (opid x) (sort_uniq (kv_elig K (opid x))))
-      else (x, Exc (esrch_exn (opid x)), [])
-    | _ => wrapped_sys x (SAffinity (opid x) (sort_uniq cpus))
-    end
+    (* if not cpus: cpus = tuple(range(1024)) [LINUX];  cpu_affinity_set(list(set(cpus))) *)
+    wrapped_sys x (SAffinity (opid x) (sort_uniq (match cpus with [] => ALL_CPUS | _ => cpus end)))
   end.
 
 Definition do_setter (x : pobj) (s : setter) : pobj * outcome res * list Z * list sysc :=
